@@ -6,31 +6,33 @@ use crate::zalsa_local::{QueryOriginRef, output_edges};
 use crate::{DatabaseKeyIndex, Event, EventKind};
 
 impl MemoHeader {
-    /// Compute the old and new outputs and invoke `remove_stale_output` for each output that
-    /// was generated before but is not generated now.
-    pub(super) fn diff_outputs(
+    /// Compute the outputs that were generated before but are not generated now.
+    ///
+    /// This does not run any user code; the caller discards the returned outputs with
+    /// [`discard_stale_outputs`] *after* it has installed the new memo, so that a panicking event
+    /// callback cannot leave a memo behind that still names already-deleted tracked structs.
+    pub(super) fn stale_outputs(
         &self,
-        zalsa: &Zalsa,
-        key: DatabaseKeyIndex,
         completed_query: &CompletedQuery,
-    ) {
+    ) -> Vec<DatabaseKeyIndex> {
         let (QueryOriginRef::Derived(edges) | QueryOriginRef::DerivedUntracked(edges)) =
             self.origin()
         else {
-            return;
+            return Vec::new();
         };
 
         // Note that tracked structs are not stored as direct query outputs, but they are still outputs
         // that need to be reported as stale.
-        for (identity, id) in &completed_query.stale_tracked_structs {
-            let output = DatabaseKeyIndex::new(identity.ingredient_index(), *id);
-            report_stale_output(zalsa, key, output);
-        }
+        let mut result: Vec<DatabaseKeyIndex> = completed_query
+            .stale_tracked_structs
+            .iter()
+            .map(|(identity, id)| DatabaseKeyIndex::new(identity.ingredient_index(), *id))
+            .collect();
 
         let mut stale_outputs = output_edges(edges).collect::<FxIndexSet<_>>();
 
         if stale_outputs.is_empty() {
-            return;
+            return result;
         }
 
         // Preserve any outputs that were recreated in the current revision.
@@ -39,9 +41,18 @@ impl MemoHeader {
         }
 
         // Any outputs that were created in a previous revision but not the current one are stale.
-        for output in stale_outputs {
-            report_stale_output(zalsa, key, output);
-        }
+        result.extend(stale_outputs);
+        result
+    }
+}
+
+pub(super) fn discard_stale_outputs(
+    zalsa: &Zalsa,
+    key: DatabaseKeyIndex,
+    stale: Vec<DatabaseKeyIndex>,
+) {
+    for output in stale {
+        report_stale_output(zalsa, key, output);
     }
 }
 
